@@ -252,7 +252,7 @@ def check(case, obs):
     obs.claim('equal', not fp_diff(before, fingerprint(d)), 'duplicating changed the original')
     at0 = call(lambda: d.acquisition_time)
     at1 = call(lambda: dup.acquisition_time)
-    obs.claim('equal', (raised(at0) and raised(at1)) or (not raised(at0) and not raised(at1) and at0 == at1),
+    obs.claim('equal', (raised(at0) and raised(at1)) or (not raised(at0) and not raised(at1) and (at0 == at1 or (at0 != at0 and at1 != at1))),      # (nan: a time channel that holds nan)
               lambda: 'acquisition_time %r vs %r' % (at0, at1))
     # ---- independence: change one side, re-read the other
     a, b = (dup, d) if case['mutate'] == 'dup' else (d, dup)
